@@ -396,7 +396,10 @@ def decode_shapes(ctx):
              ("tag", {"name": 5}), ("tag", {"name": "t", "priority": "1"}), ("tag", {"name": "t", "priority": 1.0}), ("tag", {"name": "t", "priority": 2**63}), ("tag", 5), ("tag", ["t"]), ("tag", None),
              ("call", ["M"]), ("call", ["M", []]), ("call", ["M", [1, "a", None, [1], {"k": 1}]]), ("call", ["M", [], True]), ("call", ["M", [], False]), ("call", []),
              ("call", ["M", [], True, 1]), ("call", [1]), ("call", ["M", "x"]), ("call", ["M", {"a": 1}]), ("call", ["M", [], "true"]), ("call", ["M", [], 1]), ("call", "M"), ("call", {"m": 1}),
-             ("scope", "shared"), ("scope", "contextual"), ("scope", "non_shared"), ("scope", "Shared"), ("scope", ""), ("scope", None), ("scope", 5), ("scope", True), ("scope", ["shared"]), ("scope", {"a": 1})]
+             ("scope", "shared"), ("scope", "contextual"), ("scope", "non_shared"), ("scope", "Shared"), ("scope", ""), ("scope", None),
+             # what Scope.String() prints for values that are no scope, numbers as text, keywords with blanks, the constants' names
+             ("scope", "invalid (0)"), ("scope", "invalid (4)"), ("scope", "invalid (-1)"), ("scope", "0"), ("scope", "1"), ("scope", " shared"), ("scope", "shared "),
+             ("scope", "default"), ("scope", "ScopeShared"), ("scope", "non-shared"), ("scope", "nonshared"), ("scope", "SHARED"), ("scope", 5), ("scope", True), ("scope", ["shared"]), ("scope", {"a": 1})]
     cases = fixed + [(ctx.rng.choice(["tag", "call", "scope"]), rand_node(ctx.rng)) for _ in range(n)]
     reqs_i = [{"op": "decodeNode", "kind": k, "yaml": json.dumps(v)} for k, v in cases]
     reqs_m = [{"op": "decodeNode", "kind": k, "node": tagged(v)} for k, v in cases]
